@@ -164,6 +164,15 @@ CLAIMS = {
         '(scope walk of comprehensions used stale nodes) was repaired in /repo.',
    note='Trusted: Coq kernel/vm_compute; hand model WalkMut.v tied by correspondence on heaps observed from the real objects (children order from astutil.syntax_ordered_children, checked in C14); CPython parser. No axioms.',
    design='DESIGN.md section 4 C15'),
+ 'C16': dict(
+   technique='Coq proof: the scope-restricted walk (stop at nested scopes, take their outer parts, hoist walrus targets out of comprehensions) yields exactly the nodes the declarative rule assigns to the scope, for every tree and scope at any depth; walrus-free trees are partitioned; correspondence with walk(scope=True) on encoded real trees; symtable oracle for scope_symbols',
+   text='Proved (closed): for every tree with unique ids and every scope root (function-like or comprehension) the modelled scope walk yields exactly the declaratively assigned nodes, walrus targets going to '
+        'their comprehension, every enclosing comprehension and the nearest function-like scope; without walrus targets each node belongs to exactly one scope. Partial: agreement of the rule and of name '
+        'classification with CPython is decided by the oracle: every scope of hand-written scope programs, the corpus and generated programs: node sets of walk(True, scope=True) vs the Coq walk on the encoded '
+        'tree; scope_symbols(full=True) vs the symtable module (load, store+del, global, nonlocal, local, free; names restricted to those occurring in the scope because CPython 3.12 merges inlined '
+        'comprehensions). Two defects found (exception / pattern-capture names never reported; first-iterable names dropped under a filter) were repaired in /repo.',
+   note='Trusted: Coq kernel/vm_compute; hand model Scope.v tied by correspondence; the encoder\'s outer/inner split per node class (the property\'s own list); CPython symtable. No axioms.',
+   design='DESIGN.md section 4 C16'),
 }
 
 checks = []
